@@ -39,6 +39,7 @@ type base struct {
 	proj  []bqlm.Proj
 	group []string
 	keys  []string // candidate ORDER BY keys (output names), single-kind columns
+	two   bool     // the data is split over two graphs, both listed in FROM
 }
 
 func bases() []base {
@@ -58,6 +59,9 @@ func bases() []base {
 	out = append(out, base{name: "alias", where: []bqlm.Clause{cl(bt("?s"), pc("ki"), bt("?v"))}, proj: []bqlm.Proj{pja("?s", "?a"), pja("?v", "?b")}, keys: []string{"?b", "?a"}})
 	// two clauses
 	out = append(out, base{name: "join", where: []bqlm.Clause{cl(bt("?s"), pc("ki"), bt("?v")), cl(bt("?s"), pc("kf"), bt("?w"))}, proj: []bqlm.Proj{pj("?s"), pj("?v"), pj("?w")}, keys: []string{"?w", "?v"}})
+	// the data split over two FROM graphs (disjoint halves: multiplicities are defined)
+	out = append(out, base{name: "all-two-graphs", two: true, where: []bqlm.Clause{cl(bt("?s"), bt("?p"), bt("?o"))}, proj: []bqlm.Proj{pj("?s"), pj("?p")}, keys: []string{"?s", "?p"}})
+	out = append(out, base{name: "ki-two-graphs", two: true, where: []bqlm.Clause{cl(bt("?s"), pc("ki"), bt("?v"))}, proj: []bqlm.Proj{pj("?s"), pj("?v")}, keys: []string{"?v", "?s"}})
 	// aggregate outputs
 	out = append(out, base{name: "agg", where: []bqlm.Clause{cl(bt("?s"), pc("kn"), bt("?v"))}, proj: []bqlm.Proj{pj("?v"), {Binding: "?s", Op: "count", Alias: "?c"}}, group: []string{"?v"}, keys: []string{"?c", "?v"}})
 	out = append(out, base{name: "aggsum", where: []bqlm.Clause{cl(bt("?s"), bt("?p"), bt("?o")), cl(bt("?s"), pc("ki"), bt("?n"))}, proj: []bqlm.Proj{pj("?p"), {Binding: "?n", Op: "sum", Alias: "?sum"}}, group: []string{"?p"}, keys: []string{"?sum"}}) // ?p is not a key here: a group merging one instant written in two zones has no single printed form
@@ -192,6 +196,19 @@ func check(b base, ks []bqlm.Key, limit int, hasLimit bool, data []*triple.Tripl
 	}
 	v := verdict{class: classify(q, limit, hasLimit)}
 	graphs := map[string][]*triple.Triple{"?g": data}
+	if b.two {
+		q.From = []string{"?g", "?h"}
+		var ev, od []*triple.Triple
+		for i, t := range data {
+			if i%2 == 0 {
+				ev = append(ev, t)
+			} else {
+				od = append(od, t)
+			}
+		}
+		graphs = map[string][]*triple.Triple{"?g": ev, "?h": od}
+		v.class = strings.TrimPrefix(v.class+",two-from-graphs", ",")
+	}
 	full, err := bqlm.EvalRows(q, data)
 	if err != nil {
 		common.Machinery("reference evaluator: %v on %s", err, q.Render())
@@ -483,6 +500,9 @@ func main() {
 					gen = fmt.Sprintf("variant%d:", vi) + gen
 				}
 				q := &bqlm.Query{From: []string{"?g"}, Where: bs[j.bi].where, Proj: bs[j.bi].proj, GroupBy: bs[j.bi].group, OrderBy: keyLists(bs[j.bi].keys)[j.ki]}
+				if bs[j.bi].two {
+					q.From = []string{"?g", "?h"}
+				}
 				if j.hl == 1 {
 					q.Limit = lit(j.lim)
 				}
